@@ -167,6 +167,16 @@ fn decode_encode(ctx: &mut Ctx, h: &RHeader, detail_checks: bool) -> bool {
             ok = false;
         }
     }
+    if detail_checks && h.root_offset % 3 == 0 {
+        // earlier calls on this thread whose stream failed (state carried across calls must not leak)
+        let mut broken = Inst::new(Vec::new());
+        broken.c.fail_from = Some(0);
+        let _ = guard(|| lib.to_writer(&mut broken));
+        let mut abroken = AInst::new(Vec::new());
+        abroken.c.fail_from = Some(0);
+        let _ = guard(|| block_on(lib.to_async_writer(&mut abroken)));
+        ctx.count("writes_after_a_failed_write");
+    }
     let mut out = Vec::new();
     match guard(|| lib.to_writer(&mut out)) {
         Ok(Ok(())) => {}
